@@ -33,14 +33,13 @@
 -/
 import CRProofs.Xsd
 import CRProofs.XsdEnum
-import CRProofs.XsdEnumA1
-import CRProofs.XsdEnumA2
-import CRProofs.XsdEnumA3
-import CRProofs.XsdEnumA4
-import CRProofs.XsdEnumB
 import CRProofs.XsdEnumT
+import CRProofs.XsdEnumS
 import CRProofs.XsdDocF
 import CRProofs.XsdDocK
+import CRProofs.XsdOrd1
+import CRProofs.XsdOrd2
+import CRProofs.XsdOrd3
 import Gen.XsdScenario
 import Gen.PyEnums
 
@@ -125,143 +124,86 @@ correspondence op `kids`, and to the tree encoders of section 7 by the `C03_kids
 `kidNames`).  These theorems are about the content-model matcher only and are subsumed by the `C03_valid_*` theorems, which
 also cover attributes, leaf texts and the recursion into the children.  Each theorem: for ALL shapes of the object that the schema can express (the hypotheses are the
 `minOccurs` the XSD itself demands: ≥ 2 bound points, ≥ 3 polygon vertices, ≥ 1 lanelet, …) the emitted sequence matches
-the content model of the complex type in the regenerated schema. -/
+the content model of the complex type in the regenerated schema.
+(The proofs are in CRProofs/XsdOrd1..3.lean: `ord_*`; `Ok` is defined in CRProofs/XsdOrd.lean.) -/
 
-def Ok (type : String) (kids : List String) : Prop := (matchGroup (schema.content type) kids).isSome = true
+theorem C03_order_point (z : Bool) : Ok "point" (pointKids z) := ord_order_point z
 
-instance (type : String) (kids : List String) : Decidable (Ok type kids) :=
-  inferInstanceAs (Decidable ((matchGroup (schema.content type) kids).isSome = true))
-
-macro "kids_eq" defs:Lean.Parser.Tactic.simpLemma,* : tactic =>
-  `(tactic| (simp only [$defs,*, blocksN, CR.XmlW.rep, CR.XmlW.opt, List.map, Cnt.val] <;> (try split) <;> simp))
-
-theorem C03_order_point (z : Bool) : Ok "point" (pointKids z) := by cases z <;> decide
 /-- rectangles and circles, also as shapes of dynamic obstacles with any combination of a non-default orientation / center -/
-theorem C03_order_rectangle (dyn oriSet ctrSet : Bool) : Ok "rectangle" (rectangleKids dyn oriSet ctrSet) := by
-  cases dyn <;> cases oriSet <;> cases ctrSet <;> decide
-theorem C03_order_circle (dyn ctrSet : Bool) : Ok "circle" (circleKids dyn ctrSet) := by
-  cases dyn <;> cases ctrSet <;> decide
+theorem C03_order_rectangle (dyn oriSet ctrSet : Bool) : Ok "rectangle" (rectangleKids dyn oriSet ctrSet) := ord_order_rectangle dyn oriSet ctrSet
 
-theorem C03_order_polygon (n : Nat) (h : 3 ≤ n) : Ok "polygon" (polygonKids n) :=
-  order_of (by decide) ["point"] (by decide) [.ge 3 n h] (by rfl) (by kids_eq polygonKids)
+theorem C03_order_circle (dyn ctrSet : Bool) : Ok "circle" (circleKids dyn ctrSet) := ord_order_circle dyn ctrSet
 
-theorem C03_order_bound (n : Nat) (marking : Bool) (h : 2 ≤ n) : Ok "bound" (boundKids n marking) :=
-  order_of (by decide) ["point", "lineMarking"] (by decide) [.ge 2 n h, .opt marking] (by rfl) (by
-    cases marking <;> kids_eq boundKids)
+theorem C03_order_polygon (n : Nat) (h : 3 ≤ n) : Ok "polygon" (polygonKids n) := ord_order_polygon n h
 
-theorem C03_order_lanelet (p : LaneletP) : Ok "lanelet" (laneletKids p) :=
-  order_of (by decide)
-    ["leftBound", "rightBound", "predecessor", "successor", "adjacentLeft", "adjacentRight", "stopLine", "laneletType",
-     "userOneWay", "userBidirectional", "trafficSignRef", "trafficLightRef"] (by decide)
-    [.const 1, .const 1, .any p.nPred, .any p.nSucc, .opt p.adjL, .opt p.adjR, .opt p.stop,
-     .ge 1 (if p.nTypes = 0 then 1 else p.nTypes) (by split <;> omega), .any p.nOneWay, .any p.nBidir, .any p.nSigns,
-     .any p.nLights] (by rfl) (by
-      simp only [laneletKids, blocksN, CR.XmlW.rep, CR.XmlW.opt, List.map, Cnt.val]
-      cases p.adjL <;> cases p.adjR <;> cases p.stop <;> simp)
+theorem C03_order_bound (n : Nat) (marking : Bool) (h : 2 ≤ n) : Ok "bound" (boundKids n marking) := ord_order_bound n marking h
+
+theorem C03_order_lanelet (p : LaneletP) : Ok "lanelet" (laneletKids p) := ord_order_lanelet p
 
 /-- the stop line's `lineMarking` is always emitted (`if stop_line.line_marking:` — an enum member is truthy) -/
-theorem C03_order_stopLine (points : Bool) (nSigns nLights : Nat) : Ok "stopLine" (stopLineKids points true nSigns nLights) :=
-  order_of (by decide) ["point", "lineMarking", "trafficSignRef", "trafficLightRef"] (by decide)
-    [.const (if points then 2 else 0), .const 1, .any nSigns, .any nLights] (by cases points <;> rfl) (by
-      cases points <;> simp [stopLineKids, blocksN, CR.XmlW.rep, CR.XmlW.opt, Cnt.val])
+theorem C03_order_stopLine (points : Bool) (nSigns nLights : Nat) : Ok "stopLine" (stopLineKids points true nSigns nLights) := ord_order_stopLine points nSigns nLights
 
 theorem C03_order_trafficSign (n : Nat) (position virtual : Bool) (h : 1 ≤ n) :
-    Ok "trafficSign" (trafficSignKids n position virtual) :=
-  order_of (by decide) ["trafficSignElement", "position", "virtual"] (by decide) [.ge 1 n h, .opt position, .opt virtual]
-    (by rfl) (by cases position <;> cases virtual <;> simp [trafficSignKids, blocksN, CR.XmlW.rep, CR.XmlW.opt, Cnt.val])
+    Ok "trafficSign" (trafficSignKids n position virtual) := ord_order_trafficSign n position virtual h
 
-theorem C03_order_trafficSignElement (n : Nat) : Ok "trafficSign/trafficSignElement" (signElementKids n) :=
-  order_of (by decide) ["trafficSignID", "additionalValue"] (by decide) [.const 1, .any n] (by rfl)
-    (by simp [signElementKids, blocksN, CR.XmlW.rep, Cnt.val])
+theorem C03_order_trafficSignElement (n : Nat) : Ok "trafficSign/trafficSignElement" (signElementKids n) := ord_order_trafficSignElement n
 
 /-- a traffic light needs its cycle (the schema requires `cycle`) -/
 theorem C03_order_trafficLight (position direction active : Bool) :
-    Ok "trafficLight" (trafficLightKids true position direction active) := by
-  cases position <;> cases direction <;> cases active <;> decide
+    Ok "trafficLight" (trafficLightKids true position direction active) := ord_order_trafficLight position direction active
 
-theorem C03_order_cycle (n : Nat) (offset : Bool) (h : 1 ≤ n) : Ok "trafficLightCycle" (cycleKids n offset) :=
-  order_of (by decide) ["cycleElement", "timeOffset"] (by decide) [.ge 1 n h, .opt offset] (by rfl)
-    (by cases offset <;> simp [cycleKids, blocksN, CR.XmlW.rep, CR.XmlW.opt, Cnt.val])
+theorem C03_order_cycle (n : Nat) (offset : Bool) (h : 1 ≤ n) : Ok "trafficLightCycle" (cycleKids n offset) := ord_order_cycle n offset h
 
-theorem C03_order_cycleElement : Ok "trafficCycleElement" cycleElementKids := by decide
+theorem C03_order_cycleElement : Ok "trafficCycleElement" cycleElementKids := ord_order_cycleElement
 
 theorem C03_order_incoming (nIn nRight nStraight nLeft : Nat) (leftOf : Bool) (h : 1 ≤ nIn) :
-    Ok "incoming" (incomingKids nIn nRight nStraight nLeft leftOf) :=
-  order_of (by decide) ["incomingLanelet", "successorsRight", "successorsStraight", "successorsLeft", "isLeftOf"] (by decide)
-    [.ge 1 nIn h, .any nRight, .any nStraight, .any nLeft, .opt leftOf] (by rfl)
-    (by cases leftOf <;> simp [incomingKids, blocksN, CR.XmlW.rep, CR.XmlW.opt, Cnt.val])
+    Ok "incoming" (incomingKids nIn nRight nStraight nLeft leftOf) := ord_order_incoming nIn nRight nStraight nLeft leftOf h
 
-theorem C03_order_intersection (n : Nat) (crossing : Bool) (h : 1 ≤ n) : Ok "intersection" (intersectionKids n crossing) :=
-  order_of (by decide) ["incoming", "crossing"] (by decide) [.ge 1 n h, .opt crossing] (by rfl)
-    (by cases crossing <;> simp [intersectionKids, blocksN, CR.XmlW.rep, CR.XmlW.opt, Cnt.val])
+theorem C03_order_intersection (n : Nat) (crossing : Bool) (h : 1 ≤ n) : Ok "intersection" (intersectionKids n crossing) := ord_order_intersection n crossing h
 
-theorem C03_order_crossing (n : Nat) (h : 1 ≤ n) : Ok "crossing" (crossingKids n) :=
-  order_of (by decide) ["crossingLanelet"] (by decide) [.ge 1 n h] (by rfl) (by simp [crossingKids, blocksN, CR.XmlW.rep, Cnt.val])
+theorem C03_order_crossing (n : Nat) (h : 1 ≤ n) : Ok "crossing" (crossingKids n) := ord_order_crossing n h
 
-theorem C03_order_location (geo env : Bool) : Ok "location" (locationKids geo env) := by cases geo <;> cases env <;> decide
-theorem C03_order_geoTransformation : Ok "geoTransformation" geoTransformationKids := by decide
-theorem C03_order_additionalTransformation : Ok "additionalTransformation" additionalTransformationKids := by decide
+theorem C03_order_location (geo env : Bool) : Ok "location" (locationKids geo env) := ord_order_location geo env
+
+theorem C03_order_geoTransformation : Ok "geoTransformation" geoTransformationKids := ord_order_geoTransformation
+
+theorem C03_order_additionalTransformation : Ok "additionalTransformation" additionalTransformationKids := ord_order_additionalTransformation
 
 /-- the three guards of the environment builder are always true in the code, so all four children are emitted -/
-theorem C03_order_environment : Ok "environment" (environmentKids true true true) := by decide
+theorem C03_order_environment : Ok "environment" (environmentKids true true true) := ord_order_environment
 
-theorem C03_order_staticObstacle : Ok "staticObstacle" staticObstacleKids := by decide
-theorem C03_order_environmentObstacle : Ok "environmentObstacle" environmentObstacleKids := by decide
-theorem C03_order_occupancy : Ok "occupancy" occupancyKids := by decide
+theorem C03_order_staticObstacle : Ok "staticObstacle" staticObstacleKids := ord_order_staticObstacle
+
+theorem C03_order_environmentObstacle : Ok "environmentObstacle" environmentObstacleKids := ord_order_environmentObstacle
+
+theorem C03_order_occupancy : Ok "occupancy" occupancyKids := ord_order_occupancy
 
 /-- a dynamic obstacle needs a prediction (the schema requires trajectory | occupancySet) -/
 theorem C03_order_dynamicObstacle (signal0 series : Bool) (pred : Pred) (h : pred ≠ .none) :
-    Ok "dynamicObstacle" (dynamicObstacleKids signal0 pred series) := by
-  cases pred with
-  | none => exact absurd rfl h
-  | trajectory => cases signal0 <;> cases series <;> decide
-  | occupancySet => cases signal0 <;> cases series <;> decide
+    Ok "dynamicObstacle" (dynamicObstacleKids signal0 pred series) := ord_order_dynamicObstacle signal0 series pred h
 
-theorem C03_order_phantomObstacle : Ok "phantomObstacle" (phantomObstacleKids true) := by decide
+theorem C03_order_phantomObstacle : Ok "phantomObstacle" (phantomObstacleKids true) := ord_order_phantomObstacle
 
-theorem C03_order_trajectory (n : Nat) (h : 1 ≤ n) : Ok "dynamicObstacle/trajectory" (trajectoryKids n) :=
-  order_of (by decide) ["state"] (by decide) [.ge 1 n h] (by rfl) (by simp [trajectoryKids, blocksN, CR.XmlW.rep, Cnt.val])
+theorem C03_order_trajectory (n : Nat) (h : 1 ≤ n) : Ok "dynamicObstacle/trajectory" (trajectoryKids n) := ord_order_trajectory n h
 
 theorem C03_order_occupancySet (n : Nat) (h : 1 ≤ n) :
-    Ok "dynamicObstacle/occupancySet" (occupancySetKids n) ∧ Ok "phantomObstacle/occupancySet" (occupancySetKids n) :=
-  ⟨order_of (by decide) ["occupancy"] (by decide) [.ge 1 n h] (by rfl) (by simp [occupancySetKids, blocksN, CR.XmlW.rep, Cnt.val]),
-   order_of (by decide) ["occupancy"] (by decide) [.ge 1 n h] (by rfl) (by simp [occupancySetKids, blocksN, CR.XmlW.rep, Cnt.val])⟩
+    Ok "dynamicObstacle/occupancySet" (occupancySetKids n) ∧ Ok "phantomObstacle/occupancySet" (occupancySetKids n) := ord_order_occupancySet n h
 
-theorem C03_order_signalSeries (n : Nat) (h : 1 ≤ n) : Ok "dynamicObstacle/signalSeries" (signalSeriesKids n) :=
-  order_of (by decide) ["signalState"] (by decide) [.ge 1 n h] (by rfl) (by simp [signalSeriesKids, blocksN, CR.XmlW.rep, Cnt.val])
+theorem C03_order_signalSeries (n : Nat) (h : 1 ≤ n) : Ok "dynamicObstacle/signalSeries" (signalSeriesKids n) := ord_order_signalSeries n h
 
-theorem C03_order_planningProblem (n : Nat) (h : 1 ≤ n) : Ok "planningProblem" (planningProblemKids n) :=
-  order_of (by decide) ["initialState", "goalState"] (by decide) [.const 1, .ge 1 n h] (by rfl)
-    (by simp [planningProblemKids, blocksN, CR.XmlW.rep, Cnt.val])
+theorem C03_order_planningProblem (n : Nat) (h : 1 ≤ n) : Ok "planningProblem" (planningProblemKids n) := ord_order_planningProblem n h
 
 /-- the root: location, tags, then the object families in the schema's order; ≥ 1 lanelet and ≥ 1 planning problem -/
-theorem C03_order_root (p : RootP) (hl : 1 ≤ p.nLanelets) (hp : 1 ≤ p.nProblems) : Ok "/commonRoad" (rootKids p) :=
-  order_of (by decide)
-    ["location", "scenarioTags", "lanelet", "trafficSign", "trafficLight", "intersection", "staticObstacle", "dynamicObstacle",
-     "phantomObstacle", "environmentObstacle", "planningProblem"] (by decide)
-    [.const 1, .const 1, .ge 1 p.nLanelets hl, .any p.nSigns, .any p.nLights, .any p.nIntersections, .any p.nStatic,
-     .any p.nDynamic, .any p.nPhantom, .any p.nEnvironment, .ge 1 p.nProblems hp] (by rfl)
-    (by simp [rootKids, blocksN, CR.XmlW.rep, Cnt.val])
+theorem C03_order_root (p : RootP) (hl : 1 ≤ p.nLanelets) (hp : 1 ≤ p.nProblems) : Ok "/commonRoad" (rootKids p) := ord_order_root p hl hp
 
 /-- exact values and intervals against every value type the schema uses -/
 theorem C03_order_value (interval : Bool) :
     Ok "decimalExactOrInterval" (valueKids interval) ∧ Ok "integerExactOrIntervalGreaterZero" (valueKids interval) ∧
     Ok "decimalInterval" (valueKids true) ∧ Ok "integerIntervalGreaterZero" (valueKids true) ∧
-    Ok "decimalExact" (valueKids false) ∧ Ok "integerExactZero" (valueKids false) := by
-  cases interval <;> decide
+    Ok "decimalExact" (valueKids false) ∧ Ok "integerExactZero" (valueKids false) := ord_order_value interval
 
 /-- shapes: any non-empty list of rectangles / circles / polygons (a ShapeGroup is written member by member) -/
-theorem C03_shape_order (ks : List ShapeK) (h : ks ≠ []) : Ok "shape" (shapeKids ks) := by
-  have hc : schema.content "shape" = .choice ((elemsOf (schema.content "shape")).map Item.elem) 1 none := by decide
-  unfold Ok; rw [hc]
-  refine unit_choice_ok (by decide) 1 _ ?_ ?_
-  · intro n hn
-    simp only [shapeKids, List.mem_map] at hn
-    obtain ⟨k, _, rfl⟩ := hn
-    cases k <;> decide
-  · cases ks with
-    | nil => exact absurd rfl h
-    | cons _ _ => simp [shapeKids]
+theorem C03_shape_order (ks : List ShapeK) (h : ks ≠ []) : Ok "shape" (shapeKids ks) := ord_shape_order ks h
 
 /-- positions: one point, or a run of shapes of ONE kind, or a run of lanelet references -/
 theorem C03_position_order (n : Nat) :
@@ -270,22 +212,7 @@ theorem C03_position_order (n : Nat) :
     Ok "position" (List.replicate (n + 1) "lanelet") ∧
     Ok "positionInterval" (List.replicate (n + 1) "rectangle") ∧ Ok "positionInterval" (List.replicate (n + 1) "circle") ∧
     Ok "positionInterval" (List.replicate (n + 1) "polygon") ∧ Ok "positionInterval" (List.replicate (n + 1) "lanelet") ∧
-    Ok "positionExact" ["point"] := by
-  have run : ∀ (t : String) (e : ElemP), e ∈ elemsOf (schema.content t) → e.max = none → e.min ≤ 1 →
-      schema.content t = .choice ((elemsOf (schema.content t)).map Item.elem) 1 (some 1) →
-      (elemsOf (schema.content t)).all (fun e => decide (1 ≤ e.min)) = true →
-      ((elemsOf (schema.content t)).map (·.name)).Nodup → Ok t (List.replicate (n + 1) e.name) := by
-    intro t e he hmax hmin hg hall hnd
-    exact choice_run_ok hg hall hnd e he hmax n (by omega)
-  refine ⟨by decide, ?_, ?_, ?_, ?_, ?_, ?_, ?_, ?_, by decide⟩
-  · exact run "position" { name := "rectangle", type := "rectangle", min := 1, max := none } (by decide) rfl (by decide) (by decide) (by decide) (by decide)
-  · exact run "position" { name := "circle", type := "circle", min := 1, max := none } (by decide) rfl (by decide) (by decide) (by decide) (by decide)
-  · exact run "position" { name := "polygon", type := "polygon", min := 1, max := none } (by decide) rfl (by decide) (by decide) (by decide) (by decide)
-  · exact run "position" { name := "lanelet", type := "laneletRef", min := 1, max := none } (by decide) rfl (by decide) (by decide) (by decide) (by decide)
-  · exact run "positionInterval" { name := "rectangle", type := "rectangle", min := 1, max := none } (by decide) rfl (by decide) (by decide) (by decide) (by decide)
-  · exact run "positionInterval" { name := "circle", type := "circle", min := 1, max := none } (by decide) rfl (by decide) (by decide) (by decide) (by decide)
-  · exact run "positionInterval" { name := "polygon", type := "polygon", min := 1, max := none } (by decide) rfl (by decide) (by decide) (by decide) (by decide)
-  · exact run "positionInterval" { name := "lanelet", type := "laneletRef", min := 1, max := none } (by decide) rfl (by decide) (by decide) (by decide) (by decide)
+    Ok "positionExact" ["point"] := ord_position_order n
 
 
 /-! ## 2b. The name-list models are the children of the tree encoders
@@ -458,8 +385,8 @@ theorem C03_enum_partial :
 /-- traffic-sign ids of all 14 country enums: the schema accepts a member's value **iff** the member is neither `UNKNOWN`
     (value "") nor one of the 24 members of `signNotExpressible` (CRModel/CRXmlWOk.lean; the same list drives the generator)
     — the list is exact: every listed member is rejected, every other member is accepted.
-    (The finite checks are `decide`d in CRProofs/XsdEnumA1..A4, B: German table in three parts, the Zamunda table is the
-    German one, the other twelve countries.) -/
+    (The finite checks are `decide`d in chunks, CRProofs/XsdEnumG1..8 (German table), Z1..4 (the Zamunda table is the
+    German one), O1..2 (the other twelve countries), and put together in CRProofs/XsdEnumS.) -/
 theorem C03_enum_traffic_sign (x : String × String × String) (hx : x ∈ CR.Py.Gen.trafficSignId) :
     acceptsV "trafficSignID" x.2.2 = true ↔ (x.2.1 ≠ "UNKNOWN" ∧ (x.1, x.2.1) ∉ signNotExpressible) :=
   sign_accepts_iff x hx
